@@ -72,6 +72,12 @@ GRAPHS = {'fan': g_fan, 'sum': g_sum, 'small': g_small}
 HIST_GRAPHS = {'sum': g_sum, 'small': g_small, 'wide': g_wide}
 
 
+def g_pre(m):
+    def g(table, f=210.0):
+        m['iou'].Out.ar(0, m['nse'].LFNoise0.ar(f) * table)
+    return g
+
+
 def baseline(m, gname):
     sd = m['sdf'].SynthDef('det', GRAPHS[gname](m))
     return bytes(sd.as_bytes())
@@ -205,7 +211,7 @@ def failure_scenario(ctx, kind):
 
 # ------------------------------------------------------------------ (2b) histories of builds, reads and failures
 
-HIST_OPS = ['build sum', 'build small', 'build wide', 'read desc', 'add', 'fail']
+HIST_OPS = ['build sum', 'build small', 'build wide', 'read desc', 'add', 'fail', 'build prepend']
 
 
 def history_scenario(ctx, nops):
@@ -229,12 +235,23 @@ def history_scenario(ctx, nops):
             base[gname] = build(gname)
         except Exception as e:
             raise Violation(f'graph {gname} does not build in a fresh state: {type(e).__name__}: {e}', None, data('base'))
+    pre_list = [0.5]
+    base['prepend'] = bytes(sdf.SynthDef('det', g_pre(m), prepend=[0.5]).as_bytes())
     last = None
     for i in range(nops):
         op = HIST_OPS[ctx.choose(f'op{i}', len(HIST_OPS))]
         hist.append(op)
         try:
-            if op.startswith('build'):
+            if op == 'build prepend':
+                # the caller's prepend list is an argument, not scratch space: the same list object serves every build
+                got = bytes(sdf.SynthDef('det', g_pre(m), prepend=pre_list).as_bytes())
+                if pre_list != [0.5]:
+                    raise Violation(f'a build rewrote the prepend list it was given: {pre_list!r}', None,
+                                    data('prepend-mutated'))
+                if got != base['prepend']:
+                    raise Violation(f'the graph with a prepended argument compiles to different bytes after the history '
+                                    f'{hist} ({len(got)} vs {len(base["prepend"])} bytes)', None, data('bytes'))
+            elif op.startswith('build'):
                 gname = op.split()[1]
                 last = sdf.SynthDef('h%d' % i, HIST_GRAPHS[gname](m))
                 got = bytes(sdf.SynthDef('det', HIST_GRAPHS[gname](m)).as_bytes())
@@ -364,7 +381,19 @@ def threads_scenario(ctx, g0, g1, budget):
 
     def data(sub):
         return {'key': f'c20:threads:{sub}', 'replay': dict(rec, sub=sub)}
-    base = [baseline(m, g0), baseline(m, g1)]
+    from sc3.synth import synthdesc as sdc
+    pre = {}
+
+    def do(gname):
+        """one thread's job: build a graph, or read the description of an already built definition"""
+        if gname.startswith('read:'):
+            dsc = sdc.SynthDesc.new_from(pre[gname])
+            return repr((dsc.name, list(dsc.control_names), len(dsc.inputs), len(dsc.outputs))).encode()
+        return bytes(sdf.SynthDef('det', GRAPHS[gname](m)).as_bytes())
+    for gn in (g0, g1):
+        if gn.startswith('read:'):
+            pre[gn] = sdf.SynthDef('pre', GRAPHS[gn[5:]](m))
+    base = [do(g0), do(g1)]
     coop = Coop(ctx, budget)
     saved_lock = main._def_build_lock
     saved_add = sdf.SynthDef._add_ugen
@@ -384,8 +413,7 @@ def threads_scenario(ctx, g0, g1, budget):
             return
         Ctx.cur = ctx
         try:
-            sd = sdf.SynthDef('det', GRAPHS[gname](m))
-            res[i] = bytes(sd.as_bytes())
+            res[i] = do(gname)
         except BaseException as e:   # noqa
             errs[i] = e
         finally:
@@ -509,18 +537,29 @@ def replay(rec):
         return None
     if kind == 'threads':
         # real preemptive threads, real lock: repeated concurrent builds
-        base = [baseline(m, rec['g0']), baseline(m, rec['g1'])]
+        from sc3.synth import synthdesc as sdc
+        pre = {}
+
+        def do(gname):
+            if gname.startswith('read:'):
+                dsc = sdc.SynthDesc.new_from(pre[gname])
+                return repr((dsc.name, list(dsc.control_names), len(dsc.inputs), len(dsc.outputs))).encode()
+            return bytes(sdf.SynthDef('det', GRAPHS[gname](m)).as_bytes())
+        for gn in (rec['g0'], rec['g1']):
+            if gn.startswith('read:'):
+                pre[gn] = sdf.SynthDef('pre', GRAPHS[gn[5:]](m))
+        base = [do(rec['g0']), do(rec['g1'])]
         import sys
         old = sys.getswitchinterval()
         sys.setswitchinterval(1e-6)
         try:
-            for attempt in range(150):
+            for attempt in range(400):
                 out = [None, None]
                 errs = [None, None]
 
                 def w(i, g):
                     try:
-                        out[i] = bytes(sdf.SynthDef('det', GRAPHS[g](m)).as_bytes())
+                        out[i] = do(g)
                     except Exception as e:
                         errs[i] = e
                 ts = [threading.Thread(target=w, args=(0, rec['g0'])), threading.Thread(target=w, args=(1, rec['g1']))]
@@ -555,8 +594,9 @@ def main(tier, seed):
         jobs = [dict(mode=mode, kind='order', graph=g) for g in GRAPHS]
         jobs += [dict(mode=mode, kind='failure', fail=f) for f in fails]
         jobs += [dict(mode=mode, kind='history', nops=3 if tier == 'quick' else 4)]
-        pairs = [('small', 'sum'), ('sum', 'small')] if tier == 'quick' else \
-            [(a, b) for a in GRAPHS for b in GRAPHS]
+        pairs = [('small', 'sum'), ('sum', 'small'), ('sum', 'read:small'), ('read:sum', 'small')] if tier == 'quick' else \
+            [(a, b) for a in GRAPHS for b in GRAPHS] + [(a, 'read:' + b) for a in GRAPHS for b in GRAPHS] + \
+            [('read:sum', 'fan')]
         jobs += [dict(mode=mode, kind='threads', g0=a, g1=b, budget=2 if tier == 'quick' else 3) for a, b in pairs]
         for r in run_jobs('vf.props.c20', 'job', jobs, mode):
             chk.add(mode, r)
